@@ -126,13 +126,15 @@ impl Abs for Duration {
                "ns": self.subsec_nanos() % 1_000_000})
     }
     fn from_abs(v: &Value) -> R<Self> {
+        // 16-bit limbs, least significant first; a fifth limb reaches beyond 2^64 ms (Duration holds up to 2^64 seconds)
         let a = field(v, "ms")?.as_array().ok_or("ms limbs")?;
-        let mut ms: u64 = 0;
-        for (i, l) in a.iter().enumerate() {
-            ms |= (num(l)? as u64 & 0xffff) << (16 * i);
+        let mut ms: u128 = 0;
+        for (i, l) in a.iter().enumerate().take(5) {
+            ms |= (num(l)? as u128 & 0xffff) << (16 * i);
         }
         let ns = num(field(v, "ns")?)? as u64;
-        Ok(Duration::from_millis(ms) + Duration::from_nanos(ns))
+        let secs = u64::try_from(ms / 1000).map_err(|_| "duration too large".to_string())?;
+        Ok(Duration::new(secs, (ms % 1000) as u32 * 1_000_000) + Duration::from_nanos(ns))
     }
 }
 impl<T: Abs> Abs for Vec<T> {
